@@ -72,7 +72,7 @@ def summarize(res):
 
 
 KIND_PATTERNS = [
-    (re.compile(r"postcondition not satisfied"), "post"),
+    (re.compile(r"postcondition not satisfied|unable to prove post-condition of closure"), "post"),
     (re.compile(r"precondition not satisfied"), "pre"),
     (re.compile(r"arithmetic underflow/overflow"), "overflow"),
     (re.compile(r"division by zero"), "divzero"),
